@@ -853,3 +853,70 @@ def s_clone_or(ctx):
 
 SCENARIOS.append(Scenario("C06.pattern_ir.clone_or", s_clone_or, [(PREL, "BacktrackingOr.clone"), (PREL, "BacktrackingOr.__init__"),
                                                                   (PREL, "OpIdDispatchOr.clone"), (PREL, "OpIdDispatchOr.__init__")]))
+
+
+def s_or_value_factory(ctx):
+    """OrValue(values, name, tag_var, tag_values): the deterministic dispatch form is chosen only when EVERY alternative is
+    the output of a node pattern and the operator identifiers are known and pairwise distinct (then one look-up decides the
+    alternative); otherwise the backtracking form over the same alternatives in the same order.  Tags: tag_values[i] for
+    alternative i, default 0..n-1; tag values without a tag variable, or of the wrong length, are rejected."""
+    from onnxscript.rewriter import _pattern_ir as P
+    I = Interp(ctx)
+    n = 2 + ctx.choose(2, "three alternatives")
+    ids = [("", "Add", ""), ("", "Mul", ""), ("", "Add", ""), None]
+    alts, kinds = [], []
+    for i in range(n):
+        k = ["node output", "node output, same operator as the first", "node output, operator unknown", "plain variable"][ctx.choose(4, f"alternative {i}")]
+        kinds.append(k)
+        if k == "plain variable":
+            alts.append(SObj(P.Var, f"var{i}"))
+            continue
+        a = SObj(P.NodeOutputPattern, f"alt{i}")
+        prod = SObj(P.NodePattern, f"producer{i}")
+        ident = None if k == "node output, operator unknown" else (("", "Add", "") if (k.endswith("as the first") or i == 0) else ("", f"Op{i}", ""))
+
+        def f_id():
+            raise AssertionError
+
+        def f_prod():
+            raise AssertionError
+        I.models[f_id] = (lambda v: lambda interp: v)(ident)
+        I.models[f_prod] = (lambda v: lambda interp: v)(prod)
+        prod.fields["op_identifier"] = f_id
+        a.fields["producer"] = f_prod
+        a.ident = ident
+        alts.append(a)
+    tagged = ctx.choose(2, "tag variable given") == 1
+    tags_kind = ["none", "right length", "wrong length"][ctx.choose(3, "tag values")]
+    tag_values = None if tags_kind == "none" else [f"t{i}" for i in range(n if tags_kind == "right length" else n + 1)]
+    made = []
+    I.models[P.OpIdDispatchOr] = lambda interp, mapping, name=None, tag_var=None: (made.append(("dispatch", dict(mapping), name, tag_var)) or ("dispatch", len(made)))
+    I.models[P.BacktrackingOr] = lambda interp, values, name=None, tag_var=None, tag_values=None: (made.append(("backtrack", list(values), name, tag_var, tag_values)) or ("backtrack", len(made)))
+    try:
+        r = I.run_closure(I.closure_of(P.OrValue), [list(alts), "orname", ("tag" if tagged else None), tag_values], {})
+    except PyRaise as e:
+        ctx.check("C06.pattern_ir.or_value.rejects_only_tag_values_without_a_variable_or_of_the_wrong_length",
+                  isinstance(e.exc, ValueError) and tag_values is not None and (not tagged or tags_kind == "wrong length"), CL)
+        return
+    ctx.check("C06.pattern_ir.or_value.inconsistent_tags_are_rejected", tag_values is None or (tagged and tags_kind == "right length"), CL)
+    idents = [getattr(a, "ident", None) for a in alts]
+    all_nodes = all(k != "plain variable" for k in kinds)
+    dispatchable = all_nodes and all(i is not None for i in idents) and len(set(idents)) == len(idents)
+    eff_tags = tag_values if tag_values is not None else list(range(n))
+    ok = len(made) == 1
+    ctx.check("C06.pattern_ir.or_value.builds_exactly_one_or_pattern", ok, CL)
+    if not ok:
+        return
+    m = made[0]
+    if dispatchable:
+        ctx.check("C06.pattern_ir.or_value.dispatch_form_maps_each_operator_to_its_alternative_and_tag",
+                  m[0] == "dispatch" and m[1] == {idents[i]: (eff_tags[i], alts[i]) for i in range(n)} and m[2] == "orname" and m[3] == ("tag" if tagged else None), CL)
+    else:
+        ctx.check("C06.pattern_ir.or_value.backtracking_form_unless_every_alternative_has_its_own_known_operator",
+                  m[0] == "backtrack" and m[1] == alts and m[2] == "orname" and m[3] == ("tag" if tagged else None) and
+                  (list(m[4]) == list(eff_tags) if tagged else m[4] is None),
+                  CL + " — two alternatives with the same operator (or a plain variable) cannot be told apart by one look-up")
+
+
+SCENARIOS.append(Scenario("C06.pattern_ir.or_value", s_or_value_factory, [(PREL, "OrValue"), (PREL, "OrValue.make_op_id_or_pattern")], kind="bounded",
+                          bound="2-3 alternatives (node outputs with own / shared / unknown operator, plain variables)"))
